@@ -164,6 +164,9 @@ class EFLRItem:
         if isinstance(getattr(self, key, None), Attribute):
             raise RuntimeError(f"Cannot set DLIS Attribute '{key}'. Did you mean setting '{key}.value' instead?")
 
+        if key == 'name':
+            value = validate_string(value)  # also when an item is renamed later (high-compatibility mode restricts names)
+
         if key in ('name', '_origin_reference', '_copy_number'):
             self.__dict__.pop('obname', None)  # the cached identity bytes are no longer valid
 
